@@ -28,7 +28,10 @@ REQUIRED = {"post:sample_hdi": 200, "cases:ties": 10, "cases:2d": 10, "cases:k_o
 def jobs(tier, seed):
     n_jobs = 16 if tier == "quick" else 32
     n_cases = 600 if tier == "quick" else 4000
-    return [{"name": f"hdi-{j}", "seed": seed, "j": j, "n_cases": n_cases} for j in range(n_jobs)]
+    out = [{"name": f"hdi-{j}", "seed": seed, "j": j, "n_cases": n_cases} for j in range(n_jobs)]
+    if tier == "thorough":
+        out.append({"name": "repo-tests", "seed": seed, "j": 999, "mode": "repo_tests"})
+    return out
 
 
 def gen_sample(rng, n):
@@ -108,6 +111,10 @@ def oracle_1d(rec, raw, fraction, res, tag):
 
 
 def run_job(job, rec):
+    if job.get("mode") == "repo_tests":
+        from vmon import repotests
+
+        return repotests.run(rec, ID)
     from inference.pdf import hdi as hdi_mod
     from vmon.contracts import attach
 
